@@ -37,7 +37,7 @@ FAMS = ['OO', 'OO', 'OI', 'IO', 'LO', 'OL', 'UO', 'OQ', 'QO', 'OU']
 
 
 def shards(tier, seed):
-    n = {'quick': 70, 'thorough': 1000}[tier]
+    n = {'quick': 70, 'thorough': 400}[tier]
     return [{'n': n, 'variant': 'san', 'fams': F.rotate(FAMS, seed + i, 3 if tier == 'quick' else len(FAMS))}
             for i in range(16)]
 
